@@ -241,6 +241,9 @@ class Prop:
         if not m:
             return None if out.startswith('build=') else 'unreadable result ' + out[:200]
         chk, keys, ex, info = m.group(1), m.group(2), m.group(3), m.group(4)
+        if ' reqbad=' in out:
+            return ('after the inheritance was compiled an object lists a required key it has no mandatory member for, or lacks one (%s)'
+                    % out.split(' reqbad=')[1][:80])
         root, types = self.parse(case.line)
         want = expected(root, types)
         if want[0] == 'refuse':
